@@ -131,6 +131,7 @@ def factory_closures(repo):
 def rule_R_GUARD_STR_KW(ctx, repo):
     m, closures = factory_closures(repo)
     n_round = 0
+    n_custom = 0
     for fi, node, env, eng, is_main in closures:
         qual = '%s.%s' % (fi.qual, node.name)
         ctx.analysed(qual)
@@ -142,6 +143,18 @@ def rule_R_GUARD_STR_KW(ctx, repo):
         own_kw = ('param', node.args.kwarg.arg) if node.args.kwarg else None
         own_va = ('param', node.args.vararg.arg) if node.args.vararg else None
         for o in outs:
+            # R-ROUND (oracle): wherever an argument element is established to be a float, it is rounded with builtin round(x, tol)
+            for t, b in o.st.facts.get('truth', {}).items():
+                if b and t[0] == 'call' and t[1] == ('lib', 'isinstance') and len(t[2]) == 2 and class_names(t[2][1]) == ('float',):
+                    x = t[2][0]
+                    rounded = any(e.kind == 'ROUND' and e.args and e.args[0] == x for e in o.st.events)
+                    ctx.ob('R-ROUND', '%s float %s -> round()' % (node.name, unparse_short(x)), rounded)
+                    if not rounded:
+                        n_custom += 1
+                        ctx.fail('R-ROUND', qual, 'float %s not passed to builtin round' % render(x)[:40],
+                                 'on a path where %s is known to be a float it is not rounded with the builtin round(x, tol): a hand-written rounding '
+                                 '(floor/ceil/format arithmetic) differs from round() on ties, near-ties and huge values, so calls that round to the same value no longer '
+                                 'share an entry (or a valid call overflows)' % render(x)[:60], '%s:%d' % (m.rel, node.lineno), render_path(o))
             for e in o.st.events:
                 if e.depth > 0:
                     continue    # events of an inlined local helper are judged when that helper is analysed
@@ -189,7 +202,7 @@ def rule_R_GUARD_STR_KW(ctx, repo):
                                  'a data dictionary (%s) is expanded with ** into a call: keyword names must be strings, so a valid call whose argument is a '
                                  'dict with non-string keys fails with TypeError inside the rounder' % render(x),
                                  '%s:%d' % (m.rel, e.line), render_path(o))
-    if n_round < 5:
+    if n_round < 5 and not n_custom:
         raise AnalysisError('instance count below confirmed minimum: %d round() call events (< 5)' % n_round)
 
 
